@@ -132,8 +132,11 @@ def step (s : Eng) (line : String) : Eng × String :=
   | ["case", id] => ({}, s!"case {id}")
   | "ref" :: _ => (s, "ok")
   | ["expect-recovered"] => (s, "ok")
+  | ["expect-either"] => (s, "ok")
+  | ["ref-restart"] => (s, "ok")
+  | ["ref-unknown"] => (s, "ok")
   | _ =>
-  if s.exit ≠ 0 && !(f == ["state"] || f == ["ltx"] || f == ["raw"]) then (s, "exited") else
+  if s.exit ≠ 0 && !(f == ["state"] || f == ["ltx"] || f == ["raw"] || f.head? == some "reopen") then (s, "exited") else
   match f with
   | ["open", role] =>
     if s.opened then (s, "bad-op") else ({ s with opened := true, primary := role == "primary" }, "ok")
@@ -250,6 +253,7 @@ def step (s : Eng) (line : String) : Eng × String :=
   | ["locks"] =>
     if !(s.opened && s.hasDB) then (s, "bad-op") else
     (s, " ".intercalate (LockType.all.map fun l => s!"{l.name.toLower}={(s.locks.state l).toString}"))
+  | ["demote"] => if !s.opened then (s, "bad-op") else ({ s with primary := false }, "ok")
   | ["whold"] =>
     if !(s.opened && s.hasDB) || s.held.isSome then (s, "bad-op") else
     (match s.locks.tryAcquireWriteLock s.walMode with
